@@ -141,3 +141,40 @@ def merge_results(R, per_version, what):
             x["version"] = v
             R.mismatches.append(x)
         R.generated_obligations += res.get("generated_obligations", 0)
+
+
+def parse_canon(text):
+    """canonical value text -> nested Python lists (structs and lists both become lists; leaves stay strings)"""
+    pos = 0
+
+    def val():
+        nonlocal pos
+        ch = text[pos]
+        if ch in "[{":
+            close = "]" if ch == "[" else "}"
+            pos += 1
+            items = []
+            while text[pos] != close:
+                if text[pos] == ",":
+                    pos += 1
+                    continue
+                items.append(val())
+            pos += 1
+            return (ch, items)
+        start = pos
+        while pos < len(text) and text[pos] not in ",]}":
+            pos += 1
+        return text[start:pos]
+    return val()
+
+
+def diff_canon(a, b, path=()):
+    """paths (tuples of indices) at which two parsed canonical trees differ (a length change of a list is reported at the list)"""
+    if isinstance(a, tuple) and isinstance(b, tuple):
+        if a[0] != b[0] or len(a[1]) != len(b[1]):
+            return [path]
+        out = []
+        for i, (x, y) in enumerate(zip(a[1], b[1])):
+            out += diff_canon(x, y, path + (i,))
+        return out
+    return [] if a == b else [path]
